@@ -12,6 +12,7 @@ import DvcData.Model.IndexCheckout
 import DvcData.Model.State
 import DvcData.Model.Store
 import DvcData.Model.Checkout
+import DvcData.Model.Build
 open Lean DvcData
 
 /-! Line-protocol driver: one JSON request per line on stdin, one JSON answer per line on stdout.
@@ -553,6 +554,33 @@ def opNeedsRelink (j : Lean.Json) : Except String Lean.Json := do
     pure (Checkout.needsRelink types { oid := "x", link := l, toCache := boolOf r "to_cache" } (boolOf r "cache_known"))
   pure (Lean.Json.mkObj [("r", bits rows)])
 
+/-! ### staging: the names under which contents and listings are filed -/
+
+def fileName (algo : String) (data : List UInt8) : String :=
+  if algo = "md5-dos2unix" then
+    let isText := if data.isEmpty then false else Hash.isTextBlock (data.take Hash.CHUNK)
+    md5Of (if isText then Hash.dos2unix data else data)
+  else md5Of data
+
+/-- {"op":"names","algo":..,"files":[hex..],"trees":[[[key parts],fileIndex]..]]} -/
+def opNames (j : Lean.Json) : Except String Lean.Json := do
+  let algo ← str j "algo"
+  let files ← hexList j "files"
+  let fnames := files.map (fileName algo)
+  let trees ← (← arr j "trees").toList.mapM fun t => do
+    (← t.getArr?).toList.mapM fun e => do
+      match (← e.getArr?).toList with
+      | [k, i] => pure (← keyOf k, ← i.getNat?)
+      | _ => throw "tree entry"
+  let treeOut := trees.map fun t =>
+    let tr : Tree.Tree := t.map fun e =>
+      (e.1, (none, some { name := some algo.toList, value := some ((fnames.getD e.2 "?").toList) }))
+    let staged := Build.stage (fun d => fileName algo d) (fun _ => "") (t.map fun e => (e.1, files.getD e.2 [])) []
+    Lean.Json.mkObj [("oid", String.ofList (Tree.digest md5Chars tr)), ("bytes", String.ofList (Tree.asBytes false tr)),
+      ("nfiles", staged.nfiles), ("size", staged.size),
+      ("roundtrip", .bool ((Build.materialise staged.store staged.entries) == some (t.map fun e => (e.1, files.getD e.2 []))))]
+  pure (Lean.Json.mkObj [("files", strArr fnames), ("trees", Lean.Json.arr treeOut.toArray)])
+
 def kindOf (s : String) : Except String Merge.Kind :=
   match s with
   | "add" => pure .add | "remove" => pure .remove | "change" => pure .change
@@ -593,6 +621,7 @@ def dispatch (j : Json) : Except String Json := do
   | "store_history" => opStoreHistory j
   | "obj_checkout" => opObjCheckout j
   | "needs_relink" => opNeedsRelink j
+  | "names" => opNames j
   | "ping" => pure (Json.mkObj [("pong", true)])
   | op => throw s!"unknown op {op}"
 
